@@ -64,3 +64,8 @@ Definition perm_rows_q := @perm_rows_exec Qc QcOps.
 Definition rotate_q := @rotate_exec Qc QcOps.
 Definition translate_q := @translate_exec Qc QcOps.
 Definition scale_q := @scale_exec Qc QcOps.
+
+(* assembly stages with explicit neighbour lists (rows of nbl) and oracle values as tables *)
+Definition laplacian_q := @laplacian_exec Qc QcOps.
+Definition klle_M_q (n k : nat) (nbl : list (list nat)) (wl : T) (shift : Qc) : T :=
+  mtab n n (klle_M n k (fun x => nth x nbl []) (mof wl) shift).
